@@ -584,10 +584,160 @@ func c16Walking(c *core.Ctx, r *core.Rand) error {
 	return nil
 }
 
+// c16WalkLinked: the walking transform over graphs of linked blocks, alone and under the two controls that leave links
+// unexplored (visit-once, a loader that skips).  The known finding says explored links come back INLINED; everything
+// else the property says still holds and is checked modulo that: with every link resolved through the store, the
+// identity transform returns the resolved input, the successor transform returns the resolved input updated at exactly
+// the positions WalkMatching visits under the same controls, nothing panics and nothing is dropped.
+func c16WalkLinked(c *core.Ctx, r *core.Rand) error {
+	g, err := core.GenGraph(r, 1+r.Intn(5))
+	if err != nil {
+		return err
+	}
+	spec := core.SelAll()
+	if r.Chance(1, 2) {
+		spec = core.GenSelector(r, g, 0, false, false)
+	}
+	if specHasSubset(spec) || strings.Contains(spec.Term(), " s7e ") {
+		return nil
+	}
+	var w core.WalkCfg
+	ctl := "plain"
+	switch r.Intn(4) {
+	case 0:
+		w.Once, ctl = true, "once"
+	case 1:
+		w.Skip, ctl = map[string]bool{}, "skip"
+		for _, cb := range g.Order {
+			if r.Chance(1, 3) {
+				w.Skip[cb] = true
+			}
+		}
+	case 2:
+		w.Once, w.Skip, ctl = true, map[string]bool{}, "once+skip"
+		for _, cb := range g.Order {
+			if r.Chance(1, 3) {
+				w.Skip[cb] = true
+			}
+		}
+	}
+	U := core.RunWalk(g, spec, w, true)
+	if U.Compile != "" || U.Outcome != "ok" {
+		return nil
+	}
+	s2, st2 := core.CompileSel(spec)
+	if st2 != "" {
+		return nil
+	}
+	root, err := core.BuildBasic(g.Root, nil)
+	if err != nil {
+		return err
+	}
+	caseID := "xform.walk-linked " + walkLine(g, spec, w)
+	sel := s2
+	run := func(fn traversal.TransformFn) (res datamodel.Node, err error) {
+		defer func() {
+			if x := recover(); x != nil {
+				err = fmt.Errorf("panic: %v", x)
+			}
+		}()
+		cfg := &traversal.Config{LinkSystem: g.LinkSystem(nil, w.Skip), LinkVisitOnlyOnce: w.Once,
+			LinkTargetNodePrototypeChooser: func(datamodel.Link, linking.LinkContext) (datamodel.NodePrototype, error) {
+				return basicnode.Prototype.Any, nil
+			}}
+		return traversal.Progress{Cfg: cfg}.WalkTransforming(root, sel, fn)
+	}
+	resolved := func(n datamodel.Node, err error) string {
+		if err != nil {
+			return "err " + err.Error()
+		}
+		v, rerr := core.ReadNode(n)
+		if rerr != nil {
+			return "unreadable " + rerr.Error()
+		}
+		return expandVal(g.Vals, v, 60).Sorted(core.LessCbor).Term()
+	}
+	links := 0
+	for _, e := range U.Events {
+		if strings.HasPrefix(e, "L ") {
+			links++
+		}
+	}
+	before := termOf(root)
+	// identity
+	want := expandVal(g.Vals, g.Root, 60).Sorted(core.LessCbor).Term()
+	if got := resolved(run(func(p traversal.Progress, m datamodel.Node) (datamodel.Node, error) { return m, nil })); got != want {
+		c.Fail("C16/walk-linked-identity-changes-graph", core.Replay{Kind: "oracle", Case: caseID, Impl: truncateStr(got, 800), Expected: truncateStr(want, 800),
+			Detail: "identity transform, control=" + ctl + "; both sides with every link resolved through the store (inlining itself is the known finding)"})
+	}
+	// successor of every matched int
+	wantV := expandVal(g.Vals, g.Root, 60)
+	matched := 0
+	dupPath := map[string]bool{}
+	clean := true
+	for _, vis := range U.Visits {
+		k := strings.Join(vis.Path, "\x00/")
+		if dupPath[k] {
+			clean = false // a position matched twice (duplicate interests) is transformed once by the rebuild
+		}
+		dupPath[k] = true
+		nv, ok := refUpdate(&wantV, vis.Path, func(prev *core.Val) *core.Val {
+			if prev != nil && prev.K == 'i' {
+				if i, ok := prev.Int64(); ok && i < 1<<40 && i > -(1<<40) {
+					matched++
+					x := core.Int(i + 1)
+					return &x
+				}
+			}
+			return prev
+		}, false)
+		if ok && nv != nil {
+			wantV = *nv
+		}
+	}
+	if clean {
+		want = wantV.Sorted(core.LessCbor).Term()
+		succ := func(p traversal.Progress, m datamodel.Node) (datamodel.Node, error) {
+			if m.Kind() == datamodel.Kind_Int {
+				if i, err := m.AsInt(); err == nil && i < 1<<40 && i > -(1<<40) {
+					return basicnode.NewInt(i + 1), nil
+				}
+			}
+			return m, nil
+		}
+		got := resolved(run(succ))
+		if got != want {
+			sig := "C16/walk-linked-transform-differs"
+			// the recorded finding, classified as narrowly as in c16Walking: only when writing the numeral field names
+			// canonically makes the transform produce the expected graph
+			if canon, changed := canonicalNumeralFields(spec); changed && !strings.HasPrefix(got, "err ") {
+				if s3, st3 := core.CompileSel(canon); st3 == "" {
+					sel = s3
+					if resolved(run(succ)) == want {
+						sig = "C16/walk-transform-noncanonical-index-field"
+					}
+					sel = s2
+				}
+			}
+			c.Fail(sig, core.Replay{Kind: "oracle", Case: caseID, Impl: truncateStr(got, 800), Expected: truncateStr(want, 800),
+				Detail: fmt.Sprintf("successor of every matched int, control=%s, matched ints per WalkMatching under the same controls: %d", ctl, matched)})
+		}
+	}
+	if termOf(root) != before {
+		c.Fail("C16/input-mutated", core.Replay{Kind: "oracle", Case: caseID, Impl: termOf(root), Expected: before})
+	}
+	c.Count(caseID, links > 0)
+	c.Dist("walk-linked:" + ctl)
+	if links > 0 {
+		c.Dist("walk-linked:crossed-links")
+	}
+	return nil
+}
+
 func runC16(c *core.Ctx) error {
 	c.Rule = "graphs as in C07; target paths from the explore-all visit sequence (existing positions, through links) extended with new keys, list append '-', out-of-bounds and non-numeric list segments and missing parents, with and without createParents; transform functions identity / remove / constant / wrap-previous; walking transform (identity, successor of every int) inside one block; non-trivial = path of at least 2 segments; distinct by case line"
 	c.Explanation = "theorems on the model of focusedTransform: untouched entries equal and in order, identity transform, the callback receives get(root, path), relink: resolving the new root reproduces the update"
-	c.Assumptions = []string{"removing a position that does not exist below a missing parent is compared with the model only (the reference treats it as a no-op)", "model links are not real CIDs: graphs are compared with every link resolved through the respective store", "WalkTransforming across links is covered by known finding K3 and not exercised"}
+	c.Assumptions = []string{"removing a position that does not exist below a missing parent is compared with the model only (the reference treats it as a no-op)", "model links are not real CIDs: graphs are compared with every link resolved through the respective store", "WalkTransforming across links inlines the explored blocks (known finding K3): across links its result is compared with every link resolved through the store"}
 	// K3 witness: the walking transform inlines a linked block instead of re-linking it
 	{
 		g := &core.Graph{Blocks: map[string][]byte{}, Vals: map[string]core.Val{}}
@@ -624,6 +774,11 @@ func runC16(c *core.Ctx) error {
 	}
 	for i := 0; i < c.Pick(300, 20000); i++ {
 		if err := c16Walking(c, c.Rand.Fork()); err != nil {
+			return err
+		}
+	}
+	for i := 0; i < c.Pick(400, 30000); i++ {
+		if err := c16WalkLinked(c, c.Rand.Fork()); err != nil {
 			return err
 		}
 	}
